@@ -8,22 +8,24 @@
 (***************************************************************************)
 EXTENDS Upf, Json
 
+CONSTANTS SampleMod, SampleKey   \* Gen: print the edges whose path hashes to SampleKey modulo SampleMod (1 = all)
+
 Step ==
   \/ \E p \in Peers : \E q \in FreshSeq(p) : Heartbeat(p, q)
   \/ \E p \in Peers : \E q \in FreshSeq(p) : \E n \in NodeIds : AssocSetup(p, q, n)
   \/ \E p \in Peers : \E q \in FreshSeq(p) : \E t \in {"assocupd", "assocrel"} : AssocOther(p, q, t)
   \/ \E p \in Peers : \E q \in FreshSeq(p) : \E n \in NodeIds \cup {""} : \E cp \in CpSeids \cup {""} :
-        \E ops \in EstOps : \E f \in FaultSets :
-           /\ (n = "" \/ cp = "" => ops = <<>> /\ f = {})
-           /\ (f # {} => \A x \in f : x < Len(ops))
-           /\ Establish(p, q, n, cp, ops, f)
-  \/ \E p \in Peers : \E q \in FreshSeq(p) : \E sref \in LiveOrds : \E ops \in ModOps : \E f \in FaultSets :
-        /\ (f # {} => \A x \in f : x < Len(ops) + 1)
-        /\ Modify(p, q, sref, "", "", ops, f)
+        \E ops \in EstOps : \E f \in FaultSets : \E f2 \in Fault2Sets :
+           /\ (n = "" \/ cp = "" => ops = <<>> /\ f = {} /\ f2 = {})
+           /\ (\A x \in f \cup f2 : x < Len(ops)) /\ f \cap f2 = {}
+           /\ Establish(p, q, n, cp, ops, f, f2)
+  \/ \E p \in Peers : \E q \in FreshSeq(p) : \E sref \in LiveOrds : \E ops \in ModOps : \E f \in FaultSets : \E f2 \in Fault2Sets :
+        /\ (\A x \in f \cup f2 : x < Len(ops) + 1) /\ f \cap f2 = {}
+        /\ Modify(p, q, sref, "", "", ops, f, f2)
   \/ \E p \in Peers : \E q \in FreshSeq(p) : \E lit \in SeidLits : \E ops \in {<<>>, <<Op("create", "far", 1)>>} :
-        Modify(p, q, 0, lit, "", ops, {})
+        Modify(p, q, 0, lit, "", ops, {}, {})
   \/ \E p \in Peers : \E q \in FreshSeq(p) : \E sref \in LiveOrds : \E n \in NodeIds \ DOMAIN nodes :
-        "takeover" \in Kinds /\ Modify(p, q, sref, "", n, <<>>, {})
+        "takeover" \in Kinds /\ Modify(p, q, sref, "", n, <<>>, {}, {})
   \/ \E p \in Peers : \E q \in FreshSeq(p) : \E sref \in LiveOrds : Delete(p, q, sref, "")
   \/ \E p \in Peers : \E q \in FreshSeq(p) : \E lit \in SeidLits : Delete(p, q, 0, lit)
   \/ \E k \in 1..turns : "dup" \in Kinds /\ IsReqEv(hist[k]) /\ Retrans(hist[k]) /\ UNCHANGED nseq
@@ -51,7 +53,7 @@ NoVerdict == bad = {}
 View == <<nodes, slots, free, rx, tx, txseq, dp, tok, nseq, g, bad>>
 
 \* Gen configurations: print every transition once, with an input path that reaches it
-Emit == PrintT(<<"EDGE", ToJson(hist')>>)
+Emit == IF SampleMod = 1 \/ Len(ToJson(hist')) % SampleMod = SampleKey THEN PrintT(<<"EDGE", ToJson(hist')>>) ELSE TRUE
 
 \* ------------------------------------------------------------------ constant menus
 O(o, k, i) == Op(o, k, i)
